@@ -28,15 +28,18 @@ from . import c18_impl as I
 TRAINOPS = ['train_nas_only', 'train_net_only', 'train_net_and_nas']
 ALL = ['export', 'export_nobn', 'summary', 'cost', 'get_cost:a', 'get_cost:b', 'set_spec:dict', 'set_spec:single_a', 'set_spec:single_b', 'forward', 'train_step', 'flip_sub']
 FULL = [o for o in ALL if o not in ('export_nobn', 'set_spec:single_b')]
-ALL = ALL + TRAINOPS       # + export_nobn on PIT (the only method that accepts it)
+STEPOPS = ['backward', 'opt_step', 'write_params', 'load_params', 'mode_eval', 'mode_train']
+ALL = ALL + TRAINOPS + STEPOPS
+# observers between backward() and optimizer.step(); parameter writes followed by eval() + inference without a training forward
+STEP = ['export', 'summary', 'cost', 'backward', 'opt_step', 'write_params', 'mode_eval']       # + export_nobn on PIT (the only method that accepts it)
 MID = ['export', 'summary', 'cost', 'get_cost:a', 'get_cost:b', 'set_spec:dict', 'set_spec:single_a', 'forward']
 SMALL = ['export', 'summary', 'get_cost:a', 'get_cost:b', 'forward']
-ALPH = {'full': FULL, 'full_pit': ['export_nobn'] + FULL, 'mid': MID, 'small': SMALL, 'zoo': MID + ['train_step']}
+ALPH = {'full': FULL, 'full_pit': ['export_nobn'] + FULL, 'mid': MID, 'small': SMALL, 'zoo': MID + ['train_step'], 'step': STEP}
 STATE = ('params', 'buffers', 'train_wrapper', 'train_seed', 'train_leaves_all', 'train_leaves_any', 'train_sub_all', 'train_sub_any', 'flags', 'theta', 'rng', 'reqgrad', 'grads', 'sampling', 'attrs', 'user_model')
-DERIVED = ('cost', 'summary', 'export', 'output')
+DERIVED = ('cost', 'summary', 'export', 'output', 'output_eval')
 GROUP = {'params': 'parameters', 'buffers': 'buffers', 'train_wrapper': 'training-mode', 'train_seed': 'training-mode', 'train_leaves_all': 'training-mode',
          'train_leaves_any': 'training-mode', 'train_sub_all': 'training-mode', 'train_sub_any': 'training-mode', 'flags': 'training-mode', 'theta': 'sampled-coefficients', 'sampling': 'sampling-options', 'attrs': 'module-attributes', 'grads': 'requires-grad', 'user_model': 'user-model', 'rng': 'rng', 'reqgrad': 'requires-grad',
-         'cost': 'cost', 'summary': 'summary', 'export': 'export', 'output': 'output'}
+         'cost': 'cost', 'summary': 'summary', 'export': 'export', 'output': 'output', 'output_eval': 'output'}
 
 
 def is_obs(op):
@@ -75,6 +78,15 @@ def zoo_cfgs():
     out.append(dict(method='SuperNet', full_cost=True, train=True, gumbel=True, spec0='dict', prefix=('forward', 'train_step', 'train_nas_only'), sub=('bn', 'drop'), mixed=False))
     out.append(dict(method='MPS', arch='tcn1d', full_cost=True, train=True, gumbel=False, spec0='single_a', prefix=('train_step', 'train_net_only'), sub=('bn',), mixed=False))
     return out
+
+
+def step_cfgs():
+    """training-mode configurations for the 'step' alphabet (single specification so that .cost is valid)"""
+    b = dict(full_cost=True, train=True, spec0='single_a', prefix=(), mixed=False, eval_probe=True)
+    return [dict(b, method='PIT', gumbel=False, sub=('bn', 'drop')),
+            dict(b, method='PIT', arch='tcn', gumbel=False, sub=('bn',)),
+            dict(b, method='MPS', gumbel=True, sub=('sampler',), qmoved=False),
+            dict(b, method='SuperNet', gumbel=True, sub=('bn', 'drop'))]
 
 
 def option_cfgs():
@@ -158,7 +170,7 @@ def step_oracle(cfg, path, ob, fp, par, fails):
             fails.append(('%s-result-differs-from-earlier-one:%s' % (opn, tag), dict(info, got=ob, expected=exp),
                           '%s on %s after %s returned %s, the same call on a copy of the model before it returned %s' % (op, cfg_name(cfg), list(path[:-1]), ob, exp)))
     elif op.startswith('set_spec:'):
-        ch = [k for k in STATE + ('summary', 'export', 'output') if fp[k] != par[k]]
+        ch = [k for k in STATE + ('summary', 'export', 'output', 'output_eval') if fp[k] != par[k]]
         if ch:
             fails.append(('set_spec-changes-%s:%s' % (GROUP[ch[0]], tag), dict(info, changed=ch), 'assigning cost_specification on %s changed %s' % (cfg_name(cfg), ch)))
         # the three specifications give pairwise different cost values on these models: a switch must be visible
@@ -217,6 +229,7 @@ def coq_op(op):
     if op.startswith('get_cost:'):
         return '(OGetCost "%s"%%string)' % op.split(':')[1]
     return {'export': 'OExport', 'export_nobn': 'OExportNoBn', 'summary': 'OSummary', 'cost': 'OCost', 'forward': 'OForward', 'train_step': 'OTrainStep', 'flip_sub': 'OFlip',
+            'backward': 'OBackward', 'opt_step': 'OStep', 'write_params': 'OWrite', 'load_params': 'OWrite', 'mode_eval': '(OSetMode false)', 'mode_train': '(OSetMode true)',
             'train_nas_only': '(OSetTrain TNas)', 'train_net_only': '(OSetTrain TNet)', 'train_net_and_nas': '(OSetTrain TAll)',
             'opts:frozen': '(OSetOpt (Some true) None None None)', 'opts:unfrozen': '(OSetOpt (Some false) None None None)',
             'opts:hard': '(OSetOpt None (Some true) None None)', 'opts:soft': '(OSetOpt None (Some false) None None)',
@@ -251,12 +264,13 @@ def compare_path(cfg, path, nodes, mres, mism):
     for i in range(len(sts)):
         for j in range(i + 1, len(sts)):
             a, b = sts[i], sts[j]
-            for nm, ma, mb, key, both in (('params', a[0], b[0], 'params', not any(sts[k][8][0] == 'TNas' for k in range(i, j))),     # NAS-only steps may have no gradient (hard selection)
+            for nm, ma, mb, key, both in (('params', a[0], b[0], 'params', not any(sts[k][8][0] == 'TNas' for k in range(i, j))     # NAS-only steps may have no gradient (hard selection)
+                                           and not any(o in ('opt_step', 'write_params', 'load_params') for o in path[i:j])),     # no stored gradient / an involution
                                           ('rng', a[4], b[4], 'rng', True),
                                           ('requires_grad mode', a[8], b[8], 'reqgrad', False),
                                           ('sampling options', a[7] if cfg['method'] != 'PIT' else 0, b[7] if cfg['method'] != 'PIT' else 0, 'sampling', True),
                                           ('buffers', (a[1], (a[3], a[7][3]) if mps else 0), (b[1], (b[3], b[7][3]) if mps else 0), 'buffers', j == i + 1 and a[1] != b[1]),     # MPS: theta_alpha and temperature are buffers
-                                          ('theta', a[3], b[3], 'theta', j == i + 1 and cfg['method'] != 'PIT' and a[3][0] != 'TInit' and a[8][0] != 'TNet'     # (frozen alpha: same sample)
+                                          ('theta', a[3], b[3], 'theta', j == i + 1 and cfg['method'] != 'PIT' and 'opt_step' not in path[:j] and a[3][0] != 'TInit' and a[8][0] != 'TNet'     # (frozen alpha: same sample)
                                            and ((b[3][0] == 'TGumbel' and not b[3][3]) or (b[3][0] == 'TSoft' and not b[3][2])))):     # one-hot samples may coincide
                 n += 1
                 ie = fps[i][key] == fps[j][key]
@@ -291,10 +305,12 @@ def plan(ctx):
     if ctx.quick:
         for c in cfgs:
             tasks += [('dfs', c, full(c), 2, op) for op in ALPH[full(c)]]
-        for c in deep3:
+        for c in [c for c in deep3 if c['method'] != 'MPS']:        # (MPS at depth 3: thorough tier)
             tasks += [('dfs', c, full(c), 3, op) for op in ALPH[full(c)]]
         for c in option_cfgs():
             tasks += [('dfs', c, 'mid', 2, op) for op in MID]
+        for c in step_cfgs():
+            tasks += [('dfs', c, 'step', 3 if c['method'] == 'PIT' else 2, op) for op in STEP]
         nlin = 4
     else:
         for c in cfgs + deep3:
@@ -303,6 +319,8 @@ def plan(ctx):
             tasks += [('dfs', c, 'mid', 4, op) for op in MID]
         for c in deep3:
             tasks += [('dfs', c, 'small', 5, op) for op in SMALL]
+        for c in step_cfgs():
+            tasks += [('dfs', c, 'step', 4, op) for op in STEP]
         for c in option_cfgs():
             tasks += [('dfs', c, full(c), 2, op) for op in ALPH[full(c)]]
             tasks += [('dfs', c, 'mid', 3, op) for op in MID]
@@ -316,7 +334,7 @@ def plan(ctx):
             pre = ctx.rng.choice([(), ('forward',), ('forward', 'train_step')])
             if I.OPTS_FOR[c['method']] and ctx.rng.random() < 0.5:       # non-default sampling options at observer time
                 pre = pre + tuple('opts:' + o for o in ctx.rng.sample(I.OPTS_FOR[c['method']], 2))
-            c2 = dict(c, spec0=ctx.rng.choice(I.SPECS), prefix=pre, sub=sub, mixed=ctx.rng.random() < 0.5, qmoved=(c['method'] == 'MPS' and ctx.rng.random() < 0.5))
+            c2 = dict(c, spec0=ctx.rng.choice(I.SPECS), prefix=pre, sub=sub, mixed=ctx.rng.random() < 0.5, qmoved=(c['method'] == 'MPS' and ctx.rng.random() < 0.5), eval_probe=True)
             tasks.append(('lin', c2, ops))
     return tasks
 
@@ -329,7 +347,7 @@ def run(ctx):
                 'nas cost + single specification + MIXED flags: BatchNorm/Dropout/samplers opposite to the wrapper}) + 3 training configurations with full_cost, dict specification '
                 '(2 of them with mixed flags); every history runs from scratch on one freshly built live object; + seeded length-5 histories (random sub-set S, random mixed start, '
                 'random initial specification, update_softmax_options presets as ops and in the prefix) + 10 MPS / SuperNet configurations whose sampling options are non-default at '
-                'observer time + 13 zoo configurations (PIT causal Conv1d net with ConstantPad1d(value != 0) and pruned rf/dilation masks; PIT and MPS two-input nets that cat their raw inputs; MPS Conv1d+BatchNorm1d net whose BN stays unfolded, in training mode; parameters frozen with train_nas_only / train_net_only before the observers); half of the MPS configurations have the PACT clipping bounds moved to 1e-5 / 0 / -0.5 / 0.5 .. 10 before the observers; options: (disable_sampling=True after search steps, hard, temperature 0.5, gumbel switched; 8-op alphabet depth 2). quick: depth 2 on the 20, depth 3 on the 3; thorough: depth 3 on training / 2 on eval configurations, 8-op alphabet depth 4 on 4, '
+                'observer time + 13 zoo configurations (PIT causal Conv1d net with ConstantPad1d(value != 0) and pruned rf/dilation masks; PIT and MPS two-input nets that cat their raw inputs; MPS Conv1d+BatchNorm1d net whose BN stays unfolded, in training mode; parameters frozen with train_nas_only / train_net_only before the observers); half of the MPS configurations have the PACT clipping bounds moved to 1e-5 / 0 / -0.5 / 0.5 .. 10 before the observers; options: (disable_sampling=True after search steps, hard, temperature 0.5, gumbel switched; 8-op alphabet depth 2). quick: depth 2 on the 20, depth 3 on 2 of the 3; 7-op step alphabet {export, summary, cost, backward, opt_step, write_params, eval()} depth 3 on the 2 PIT / depth 2 on the MPS and SuperNet training configurations (observers between backward() and step(), parameter writes followed by eval() + inference); thorough: depth 3 on training / 2 on eval configurations, 8-op alphabet depth 4 on 4, '
                 '5-op alphabet depth 5 on 3; a case = one history; non-trivial = it contains an observer call; distinct = distinct (configuration, history)')
     tasks.sort(key=lambda t: -(len(ALPH[t[2]]) ** (t[3] - 1) if t[0] == 'dfs' else 1))
     mp = multiprocessing.get_context('fork')
